@@ -586,7 +586,8 @@ Fixpoint deser_vec_var (f : bytes -> dres cval) (cnt : nat) (b : bytes) : dres (
       match uvint_decode b with
       | None => Err DE_RawCqlBytesRead
       | Some (size, r0) =>                     (* u64 -> usize never fails on 64-bit targets *)
-          match read_n_bytes size r0 with
+          (* a zero-length element is an empty slice, not a missing one (fix b428ba8) *)
+          match (if size =? 0 then Some (Some [], r0) else read_n_bytes size r0) with
           | None => Err DE_RawCqlBytesRead
           | Some (ob, r) =>
               rbind (nonnull f ob) (fun x =>
@@ -840,20 +841,7 @@ Definition kc_vector_hole (t : ctype) (v : cval) : bool :=
   | _, _ => false
   end.
 
-(* class B "vector-trailing-empty-element": the LAST element of a vector with vint-prefixed
-   elements has a zero-length encoding; `read_n_bytes` answers None on an exhausted slice, which
-   the element decoder reports as an unexpected null *)
-Definition kc_vector_trailing_empty (t : ctype) (v : cval) : bool :=
-  match t, vec_elems v with
-  | TVector e _, Some l =>
-      match type_size e, last (map Some l) None with
-      | None, Some x => match ser_value false e x with Ok [] => true | _ => false end
-      | _, _ => false
-      end
-  | _, _ => false
-  end.
-
-(* class C "empty-tuple": `CqlValue::Tuple(vec![])` is written as a zero-length cell, which reads
+(* class B "empty-tuple": `CqlValue::Tuple(vec![])` is written as a zero-length cell, which reads
    back as Empty instead of a tuple of nulls *)
 Definition kc_empty_tuple (t : ctype) (v : cval) : bool :=
   match t, v with
@@ -901,30 +889,22 @@ Fixpoint exists_sub (P : ctype -> cval -> bool) (t : ctype) (v : cval) {struct t
   end.
 
 Definition kc_any (t : ctype) (v : cval) : bool :=
-  kc_vector_hole t v || kc_vector_trailing_empty t v || kc_empty_tuple t v.
+  kc_vector_hole t v || kc_empty_tuple t v.
 
 Definition known_class (t : ctype) (v : cval) : bool := exists_sub kc_any t v.
 Definition known_class_cell (t : ctype) (c : cell) : bool :=
   match c with CVal v => known_class t v | _ => false end.
 
-(* which class, for the driver's tag (first match in the order A, B, C) *)
-Inductive kclass := KA_vector_null_element | KB_vector_trailing_empty | KC_empty_tuple.
+(* which class, for the driver's tag (A before B) *)
+Inductive kclass := KA_vector_null_element | KB_empty_tuple.
 Definition known_class_of (t : ctype) (v : cval) : option kclass :=
   if exists_sub kc_vector_hole t v then Some KA_vector_null_element
-  else if exists_sub kc_vector_trailing_empty t v then Some KB_vector_trailing_empty
-  else if exists_sub kc_empty_tuple t v then Some KC_empty_tuple
+  else if exists_sub kc_empty_tuple t v then Some KB_empty_tuple
   else None.
 
 (* typed vector carriers (ser_vector_cells): a null / unset / Empty element *)
 Definition cells_hole (cells : list cell) : bool :=
   existsb (fun c => match c with CNull | CUnset | CVal CEmpty => true | _ => false end) cells.
-
-(* ... or, with vint-prefixed elements, a LAST element whose encoding is empty (class B) *)
-Definition cells_trailing_empty (e : ctype) (cells : list cell) : bool :=
-  match type_size e, last (map Some cells) None with
-  | None, Some c => match ser_cell_ws false e c with Ok [] => true | _ => false end
-  | _, _ => false
-  end.
 
 (* ====================================================================================== *)
 (* 7. Specification: the wire format, transcribed from the protocol text                   *)
